@@ -67,7 +67,7 @@ package netutil
 // a port is an error; the probe connection is closed on every return after a successful dial.
 //@ func LookupReachable
 //@ props C09
-//@ may_panic true
+//@ modifies nothing
 //@ at return conn.RemoteAddr assume [a-tcp-dial-yields-a-tcp-address] typeis(result_of(conn.RemoteAddr, 0), *net.TCPAddr) && result_of(conn.RemoteAddr, 0).(*net.TCPAddr) != nil
 //@ at return d.Dial assume [a-connection-exactly-when-no-error] iff(result_of(d.Dial, 1) == nil, result_of(d.Dial, 0) != nil)
 //@ at call d.Dial assert [tcp-to-the-asked-address] arg(network) == "tcp" && arg(address) == addr0
